@@ -476,8 +476,11 @@ func (c *Connection) handlePingRes(frame *Frame) bool {
 
 // handlePingReq responds to the pingReq message with a pingRes.
 func (c *Connection) handlePingReq(frame *Frame) {
-	if state := c.readState(); state != connectionActive {
-		c.protocolError(frame.Header.ID, errConnNotActive{"ping on incoming", state})
+	// A peer may ping (its health checks do) while this connection is draining the
+	// calls in flight during a graceful close. That is not a protocol error: failing
+	// the connection here would fail exactly the calls the close is waiting for. A
+	// draining connection still answers; only a closed one does not.
+	if state := c.readState(); state == connectionClosed {
 		return
 	}
 
